@@ -819,9 +819,10 @@ example : [(1, newRec [1] 0), (2, newRec [] 1)].Perm [(2, newRec [] 1), (1, newR
 --   false in principle under the exact condition of snapshot_cut_at_buffer_boundary_observation; the data file has no
 --   such bound: defrag's data writer is analysed for any number of chunks); (ii) which browsing flags a record carries
 --   after a reopen is specified as "what was persisted with it" (qdb_browse_is_map speaks about the flag word the ghost
---   holds), not by an independent map-level rule; (iii) BR_ABORT (walk results with the bit of value 4 are excluded by `OpOK5` /
---   `WalkOK5`), BrowseAll (in the model and the harness as `peek`, not an `Op` of the theorems), GetNoMutex, Flush and
---   the WalkFunction of NewDBExt are outside the theorems' operation language; (iv) the completing NewDBExt of a crash
+--   holds), not by an independent map-level rule; (iii) BrowseAll (in the model, the oracle and the harness — `browseall <walk>`,
+--   `peek` — with the lemmas of Proofs/C19* stated for Browse and BrowseAll alike, but not an `Op` of the theorems),
+--   GetNoMutex, Flush and the WalkFunction of NewDBExt are outside the theorems' operation language (BR_ABORT is inside:
+--   `WalkOK5` is any 32-bit word, the order of the walk list stands for Go's map order); (iv) the completing NewDBExt of a crash
 --   item loads the data (`hstep .crash` passes LoadData = true; recovery attempts that themselves die, `recrash`, are
 --   non-volatile NewDBExt calls — the file operations of NewDBExt depend neither on the mode nor on LoadData); a
 --   LoadData = false NewDBExt on the directory reached by ANY history (hence on every crash directory: end the history
